@@ -1,4 +1,4 @@
-import Gp.Lemmas.Layers.Icmp
+import Gp.Lemmas.Layers.IcmpChain
 /-
   C05 for layers/icmp4.go, icmp6.go, icmp6msg.go (engine `licmp`): decoding into a REUSED layer
   object gives the same result as decoding into a fresh one, and the result does not depend on
@@ -38,6 +38,32 @@ theorem decode_history (k : Kind) (hist : List CSlice) (data foreign : Bytes) :
     whose never-assigned fields are untouched, whatever happened in between. -/
 theorem history_invariant (k : Kind) (hist : List CSlice) : Untouched (runHist (fresh k) hist) :=
   untouched_runHist (fresh k) hist (untouched_fresh k)
+
+/-! ### the layer parser over reused objects reports the leading run of the packet's layers -/
+
+/-- First sentence of C05 for the ICMP chain (ICMPv4|ICMPv6 → message → Payload): a
+    DecodingLayerParser built over the eight (reused, `AllUntouched` = reached by any decode
+    history) objects and a Payload decodes exactly the layers NewPacket produces from the same
+    bytes — same values, same order, same truncation flag — up to: nothing more (complete), the
+    packet's DecodeFailure layer (the parser returns the decoder's error instead), or a layer type
+    outside the set (the parser returns UnsupportedLayerType).  `Agree` is defined in
+    Gp/Lemmas/Layers/IcmpChain.lean. -/
+theorem parser_is_prefix_of_packet (k : Kind) (o : Objs) (data : Bytes) (r : DlpOut) (q : PktOut)
+    (ho : AllUntouched o) (hd : dlpRun 3 k o data [] false = .ok r) (hp : pktRun 3 k data = .ok q) :
+    r.trunc = q.trunc ∧
+    match r.status with
+    | .ok => q.layers = r.decoded ∧ q.err = false
+    | .err => q.layers = r.decoded ++ [.failure] ∧ q.err = true
+    | .unsupported => ∃ t, q.layers = r.decoded ++ [.other t] ∧ q.err = false := by
+  obtain ⟨h1, h2⟩ := (dlp_agrees 3 k o data [] false r q ho hd hp).1
+  refine ⟨by simpa using h1, ?_⟩
+  cases hs : r.status <;> rw [hs] at h2 <;> simpa using h2
+
+/-- … and leaves the objects in a state from which the next packet again decodes as if fresh. -/
+theorem parser_keeps_objects_clean (k : Kind) (o : Objs) (data : Bytes) (r : DlpOut) (q : PktOut)
+    (ho : AllUntouched o) (hd : dlpRun 3 k o data [] false = .ok r) (hp : pktRun 3 k data = .ok q) :
+    AllUntouched r.objs :=
+  (dlp_agrees 3 k o data [] false r q ho hd hp).2
 
 /-! ### `∀ old`: no field of the old value survives a successful decode -/
 
